@@ -973,6 +973,8 @@ where
     pub fn store(&self, v: T) {
         let guard = self.ptr_guard_mut();
 
+        #[cfg(vm_memory_verif)]
+        crate::verif_hooks::trace_access(size_of::<T>(), &v as *const T as *const u8, guard.as_ptr());
         // SAFETY: Safe because we checked the address and size when creating this VolatileRef.
         unsafe { write_volatile(guard.as_ptr() as *mut Packed<T>, Packed::<T>(v)) };
         self.bitmap.mark_dirty(0, self.len())
@@ -983,6 +985,8 @@ where
     pub fn load(&self) -> T {
         let guard = self.ptr_guard();
 
+        #[cfg(vm_memory_verif)]
+        crate::verif_hooks::trace_access(size_of::<T>(), guard.as_ptr(), std::ptr::null_mut());
         // SAFETY: Safe because we checked the address and size when creating this VolatileRef.
         // For the purposes of demonstrating why read_volatile is necessary, try replacing the code
         // in this function with the commented code below and running `cargo test --release`.
@@ -1225,6 +1229,8 @@ where
             // ptr::add is safe because get_array_ref() validated that
             // size_of::<T>() * self.len() fits in an isize.
             unsafe {
+                #[cfg(vm_memory_verif)]
+                crate::verif_hooks::trace_access(size_of::<T>(), ptr as *const u8, v as *mut T as *mut u8);
                 *v = read_volatile(ptr).0;
                 ptr = ptr.add(1);
             }
@@ -1312,6 +1318,8 @@ where
                 // ptr::add is safe because get_array_ref() validated that
                 // size_of::<T>() * self.len() fits in an isize.
                 unsafe {
+                    #[cfg(vm_memory_verif)]
+                    crate::verif_hooks::trace_access(size_of::<T>(), &v as *const T as *const u8, ptr as *mut u8);
                     write_volatile(ptr, Packed::<T>(v));
                     ptr = ptr.add(1);
                 }
